@@ -22,9 +22,13 @@
 #include <ctype.h>
 
 static void FuncSUBSTR(TempResult* pResult, TempResult const* pArgs, unsigned ArgCnt) {
-    int cnt = pArgs[0].Contents.str.len - pArgs[1].Contents.Int;
+    LargeInt start = pArgs[1].Contents.Int, cnt;
 
     UNUSED(ArgCnt);
+    if (start < 0) {
+        start = 0;
+    }
+    cnt = (LargeInt)pArgs[0].Contents.str.len - start;
     if ((pArgs[2].Contents.Int != 0) && (pArgs[2].Contents.Int < cnt)) {
         cnt = pArgs[2].Contents.Int;
     }
@@ -32,9 +36,10 @@ static void FuncSUBSTR(TempResult* pResult, TempResult const* pArgs, unsigned Ar
         cnt = 0;
     }
     as_tempres_set_c_str(pResult, "");
-    as_nonz_dynstr_append_raw(
-            &pResult->Contents.str, pArgs[0].Contents.str.p_str + pArgs[1].Contents.Int,
-            cnt);
+    if (cnt > 0) {
+        as_nonz_dynstr_append_raw(
+                &pResult->Contents.str, pArgs[0].Contents.str.p_str + start, cnt);
+    }
 }
 
 static void FuncSTRSTR(TempResult* pResult, TempResult const* pArgs, unsigned ArgCnt) {
@@ -50,7 +55,7 @@ static void FuncCHARFROMSTR(
 
     as_tempres_set_int(
             pResult, ((pArgs[1].Contents.Int >= 0)
-                      && ((unsigned)pArgs[1].Contents.Int < pArgs[0].Contents.str.len))
+                      && (pArgs[1].Contents.Int < (LargeInt)pArgs[0].Contents.str.len))
                              ? pArgs[0].Contents.str.p_str[pArgs[1].Contents.Int]
                              : -1);
 }
